@@ -30,7 +30,7 @@ RULE = ('histories of 4..8 (quick) / 6..14 (thorough) operations from {write(for
         'names, macro lookup, content_type, render-including-template, loader.load} over main.pt / lib.pt in 1..3 search '
         'directories, auto_reload on/off, through PageTemplateFile directly or through a PageTemplateLoader; non-trivial '
         'iff the history contains a write followed by a use of the same file; distinct by operation-kind sequence + '
-        'configuration. Loader layer: random layouts of 8 candidate names over 1..3 directories x default_extension in '
+        'configuration. Loader layer: random layouts of 15 candidate names (incl. a dot in a directory part, leading-dot names) over 1..3 directories x default_extension in '
         '{none, .pt, pt, .txt} x 14 spellings of the requested name (dot-less, dotted, sub-directory, absolute, padded '
         'with blanks, missing). Not generated: rewriting a file without changing its mtime (undetectable by design).')
 ASSUMPTIONS = ['file mtimes are set explicitly with os.utime (whole seconds), so the check does not depend on the clock']
@@ -210,9 +210,11 @@ def run_loader_layout(ctx, rng, root):
     from chameleon import PageTemplateLoader
     dirs = [os.path.join(root, 'd%d' % i) for i in range(rng.randint(1, 3))]
     files = {}
-    names = ['a.pt', 'b.pt', 'c', 'c.pt', 'x.y.pt', 'sub/a.pt', 'a.txt', 'b']
+    names = ['a.pt', 'b.pt', 'c', 'c.pt', 'x.y.pt', 'sub/a.pt', 'a.txt', 'b', 'v1.0/page', 'v1.0/page.pt', 'v1.0/page.txt',
+             '.frag', '.frag.pt', 'sub/c', 'sub/c.pt']
     for d in dirs:
         os.makedirs(os.path.join(d, 'sub'), exist_ok=True)
+        os.makedirs(os.path.join(d, 'v1.0'), exist_ok=True)
         for nm in names:
             if rng.random() < .45:
                 p = os.path.join(d, nm)
@@ -237,7 +239,7 @@ def run_loader_layout(ctx, rng, root):
     for q in range(8):
         if rng.random() < .7:
             spec = rng.choice(['a.pt', 'a', 'b', 'b.pt', 'c', 'c.pt', 'x.y.pt', 'x.y', 'sub/a.pt', 'sub/a', 'a.txt',
-                               ' a.pt ', 'nope', 'nope.pt'])
+                               ' a.pt ', 'nope', 'nope.pt', 'v1.0/page', 'v1.0/page.pt', '.frag', '.frag.pt', 'sub/c', 'sub/c.pt'])
         else:
             spec = rng.choice(list(files) or [os.path.join(dirs[0], 'zz.pt')])
         want = resolve(spec)
